@@ -952,7 +952,9 @@ class Container:
         return source_slice.plate, to
 
     def dataframe(self) -> pandas.DataFrame:
-        return self._dataframe().copy()  # (the caller's own table: the memoised one stays as it is)
+        table = self._dataframe().copy()  # (the caller's own table: the memoised one stays as it is)
+        table.index, table.columns = table.index.copy(deep=True), table.columns.copy(deep=True)  # (labels too)
+        return table
 
     @cache
     def _dataframe(self) -> pandas.DataFrame:
@@ -980,7 +982,8 @@ class Container:
                     precision = config.precisions[unit] if unit in config.precisions else config.precisions['default']
                     columns.append(f"{round(converted_value, precision)} {unit}")
             label = substance.name
-            while label in df.index:  # (a second substance of that name, e.g. another lot of an enzyme: its own row)
+            while label in df.index or label == 'Total':
+                # (a second substance of that name, e.g. another lot of an enzyme, or one called like the last row)
                 label += "'"
             df.loc[label] = columns
         columns = []
